@@ -3,7 +3,7 @@
 From Coq Require Import QArith Qcanon ZArith List Arith Bool Lia Lqa.
 From Verif.lib Require Import Bsp NpCore NpQ.
 From Verif.C02 Require Import Proofs.
-From Verif.C02 Require Proofs_ref Props.
+From Verif.C02 Require Proofs_ref.
 From Verif.C19 Require Import Model Proofs Proofs2 Proofs3 Proofs5.
 Import ListNotations.
 Open Scope Qc_scope.
@@ -49,8 +49,8 @@ Proof.
   - cbn [Nref]. unfold in_span. replace (i + 0 + 1)%nat with (S i) in H2 by lia.
     apply NpQ.qleb_iff in H1. apply NpQ.qltb_iff in H2. rewrite H1, H2. cbn. reflexivity.
   - cbn [Nref].
-    assert (Hn1 : 0 <= Nref kv p i u) by (apply Props.N_nonneg; [exact Hs|lia]).
-    assert (Hn2 : 0 <= Nref kv p (S i) u) by (apply Props.N_nonneg; [exact Hs|lia]).
+    assert (Hn1 : 0 <= Nref kv p i u) by (apply Proofs_ref.N_nonneg_l; [exact Hs|lia]).
+    assert (Hn2 : 0 <= Nref kv p (S i) u) by (apply Proofs_ref.N_nonneg_l; [exact Hs|lia]).
     destruct (Qclt_le_dec u (kn kv (i + S p))) as [A|B].
     + (* u < t_{i+P}: the first term is positive *)
       assert (Hlt : kn kv i < u).
